@@ -104,7 +104,7 @@ def program(g, i):
     args = ["'static"] * len(lts) + [inst[p] for p in params] + (["3"] if constp else [])
     pre2 = ""
     if any(namedp.values()):      # a trait whose associated type carries the deriving type's name
-        pre2 = "pub trait Named { type %s; }\nimpl Named for u8 { type %s = u32; }\nimpl Named for R { type %s = u8; }\nimpl Named for RC { type %s = u8; }\n" % ((name,) * 4)
+        pre2 = "pub trait Named { type %s; }\nimpl Named for u8 { type %s = u32; }\nimpl Named for i8 { type %s = u32; }\nimpl Named for R { type %s = u8; }\nimpl Named for RC { type %s = u8; }\n" % ((name,) * 5)
     prog = PRE + pre2 + head + body + "\nfn main() { ok::<%s<%s>>(); }\n" % (name, ", ".join(args))
     if "cratepath" in M:      # the library is linked under ANOTHER name: nothing the derive emits may say `scale_info`
         prog = "// extern-rename: scale_info=sinfo\n" + prog.replace("scale_info::", "sinfo::")
